@@ -57,6 +57,10 @@ func (OracleC01) check(x *Exec, s *Snap, when string) {
 		}
 		want := new(big.Int)
 		if a, ok := s.Assets[d]; ok {
+			if a.TotalTokens.IsNegative() {
+				// beyond the rounding budget of the withdrawals made (else classified above)
+				x.Fail("C01", "custody", "%s: the recorded staked total of %s is %s: custody falls short of the pending unbondings it owes", when, d, a.TotalTokens)
+			}
 			want.Add(want, a.TotalTokens.BigInt())
 		}
 		if p := pend[d]; p != nil {
